@@ -222,15 +222,17 @@ func c06Packet(sc c06Scn, dirs []bool, inIf, egIf uint16, arr int, key []byte, t
 
 func TestC06(t *testing.T) {
 	r := mc.NewRun(t, "C06", mc.Exploration)
-	r.Rule = "AS with two own and one sibling-owned interface per link type {unset,core,parent,child,peer}; every path scenario " +
-		"(mid-segment, first hop, segment change at 4 positions, first hop after a segment change, peering hops at 5 positions) x " +
+	r.Rule = "AS with two own and one sibling-owned interface per link type {unset,core,parent,child,peer}; 15 path positions " +
+		"(mid-segment, first hop, last hop of a segment followed by another at 5 positions, first hop of a later segment at 4 positions, incl. " +
+		"one-hop segments) x every assignment of the Peer flag to the info fields INDEPENDENTLY (the role of the hop - in-segment, segment " +
+		"change, peering hop, after a segment change - is derived from the flag of the hop's own info field) x " +
 		"every ConsDir assignment x arrival {external interface of each link type, sibling link with the hop's ingress owned by the " +
 		"sibling for each link type, internal link on the first hop} x egress {own interface of each link type, sibling-owned interface " +
 		"of each link type, 0, unknown} x {SCION, EPIC} x sibling links {detached, connected} x keys; all validated hop fields carry valid MACs; " +
-		"every packet is judged on fresh processors AND directly after each kind of predecessor packet on the same processor (rtr.Dirt: " +
+		"every packet on a path with uniform Peer flags is judged on fresh processors AND directly after each kind of predecessor packet on the same processor (rtr.Dirt: " +
 		"cross-over forwarded / rejected after the switch / EPIC / extension headers / to a sibling, peering hops, in-segment transit, from " +
 		"sibling, from host, delivery, one-hop path: all histories of length 1 over that alphabet, thorough: also of length 2); " +
-		"distinct key = scenario+dirs+ingress+egress+type+key; non-trivial = all"
+		"distinct key = position+peer flags+dirs+ingress+egress+type+key; non-trivial = all"
 	var nHarness, histories atomic.Int64
 	harness := func(f string, a ...any) {
 		if nHarness.Add(1) <= 5 {
@@ -288,6 +290,10 @@ func TestC06(t *testing.T) {
 					uniform = uniform && pm[i] == pm[0]
 				}
 				sc := j.sc.classify(pm)
+				pmName := "" // Peer flags in segment order
+				for _, f := range pm {
+					pmName += map[bool]string{true: "1", false: "0"}[f]
+				}
 				var ins []ingress
 				if sc.cur == 0 {
 					ins = append(ins, ingress{c06ArrHost, 0, topology.Unset, rtr.FromHost})
@@ -337,7 +343,7 @@ func TestC06(t *testing.T) {
 								res = hp.Process(raw, in.in)
 								histories.Add(1)
 							}
-							key := fmt.Sprintf("%s|P%0*b|d%b|%s:%s%d|%s:%s%d|pt%d|k%x", sc.name, len(pm), pmBits, dm, c06ArrNames[in.arr], c06LTName[in.lt], in.id,
+							key := fmt.Sprintf("%s|P%s|d%b|%s:%s%d|%s:%s%d|pt%d|k%x", sc.name, pmName, dm, c06ArrNames[in.arr], c06LTName[in.lt], in.id,
 								c06EgName[eg.kind], c06LTName[eg.lt], eg.id, j.pt, j.key[0]) + map[bool]string{true: "|connected-sibling-links"}[j.reuse]
 							r.Case(key, true)
 							if sampled.Add(1)%997 == 1 {
@@ -518,6 +524,8 @@ func TestC06(t *testing.T) {
 		"exact SCMP code: InvalidPath(48)+pointer at the hop field for a same-segment pair, InvalidSegmentChange(53)+pointer at an info field of the change for a segment change, UnknownHopField cons egress(50)/cons ingress(49) by construction direction + pointer at the hop field for an unknown egress; for from-inside rejections any of these codes",
 		"peering hops are judged with the same-segment list (they are not a segment change in the sense of the statement: child-peer / peer-child are listed there)",
 		"hair-pin (ingress interface == egress interface) is not enumerated",
+		"the Peer flag of an info field is not covered by any MAC, so every assignment is explored; whether the current hop is a peering hop (same-segment list, no segment change) is decided by the flag of the info field the hop belongs to, together with its position (last hop of segment 0 / first of segment 1 of a two-segment path) - the flags of other info fields never turn a segment change into something else",
+		"paths that no sender may build - a one-hop segment while the current info field has no Peer flag, the Peer flag on a path that has not exactly two segments - only have to be not forwarded when the pair is forbidden (any refusal accepted, nothing demanded otherwise); with contradictory (mixed) flags a silent drop is accepted as refusal, a fast-path answer must carry the right code and pointer, and it is only counted when the slow path then declines to send it (it re-derives 'peering' from the info field current after the segment switch and finds the path unanswerable)",
 		"the verdict for a packet must not depend on what the same packet processor handled before (a processor is a long-lived per-goroutine object): a difference between fresh processors and any length-1 history is a violation (result-depends-on-processor-history:*), and the differing result is judged by the same allow-lists (finding keys with suffix /after-other-packet)",
 	}
 	r.Extra["scenarios"] = len(c06Scenarios())
